@@ -238,8 +238,10 @@ def run_table(inp, rng):
     lo, hi = inp["b0_range"]
     cases = 0
     for ctx in inp["ctxs"]:
-        pre = ctx.get("pre", "open")    # open | closing | inside
+        pre = ctx.get("pre", "open")    # open | closing | inside | insideplain (compression negotiated, the message is not compressed)
         for b0 in range(lo, hi):
+            if ctx.get("b0_filter") == "rsv1" and (b0 >> 4) & 7 != 4:
+                continue
             for b1 in range(256):
                 cases += 1
                 segs = ["whole"]
@@ -251,15 +253,15 @@ def run_table(inp, rng):
                     inside_cmp = False
                     if pre == "closing":
                         s.lclose()
-                    elif pre == "inside":
-                        # first fragment of a text message (compressed when negotiated) precedes the cell
-                        fb0 = 0x41 if ctx["compress"] else 0x01
+                    elif pre in ("inside", "insideplain"):
+                        # first fragment of a text message (compressed when negotiated, except "insideplain") precedes the cell
+                        fb0 = 0x41 if (ctx["compress"] and pre == "inside") else 0x01
                         mbit = 0x80 if ctx["role"] == "server" else 0
                         h0, w0, p0 = completion(fb0, mbit | 6, ctx["compress"], False, rng)
                         d0 = s.note_data(fb0, p0)
                         s.header(h0)
                         s.payload(w0, p0, dlen=d0)
-                        inside_cmp = bool(ctx["compress"])
+                        inside_cmp = bool(ctx["compress"]) and pre == "inside"
                     hdr, wire, plain = completion(b0, b1, ctx["compress"], inside_cmp, rng)
                     dlen = s.note_data(b0, plain)
                     if seg == "coalesced":
